@@ -5,8 +5,10 @@
 -/
 import PgGen.C19Tables
 import PgProofs.Code
+import PgProofs.CodeTail
 namespace Pg.C19
 open Node
+open Pg.C19.Tail
 
 /-- SPECIFICATION TABLE (hand-written from the Python language reference; only rows nobody would
 dispute): which node classes *are* the constructs the property names. -/
@@ -123,5 +125,149 @@ example : ∃ m ∈ nodes (Node.mk Kind.Module 0 [Node.mk .Expr 1 [Node.mk .Call
   ⟨Node.mk .Call 1 [], by simp [nodes, nodesAll], .call, rfl, by decide⟩
 example : validate gate [Perm.assign] (Node.mk Kind.Module 0 [Node.mk .Assign 1 []]) = true := by decide
 example : effective effectiveRule (some []) none = some [] := by decide
+
+/-! ### The tail of `evaluate`: what is executed is what plain execution of the text yields -/
+namespace Tail
+
+/-- `evaluate` and plain execution agree: both fail with the same error, or both succeed with the
+same captured output and the same globals (the bookkeeping key `__result__` aside). -/
+def Agree (r : Except Err (Option Res)) (p : Except Err St) : Prop :=
+  match r, p with
+  | .error e, .error e' => e = e'
+  | .ok (some r), .ok s => erase resultKey r.env = erase resultKey s.env ∧ r.out = s.out
+  | _, _ => False
+
+/-- Generated obligations on the split table of the current source, in the form the tail proofs
+use them. -/
+theorem C19_split_assign_expr :
+    splitKinds.contains Kind.Assign = true ∧ splitKinds.contains Kind.Expr = true ∧
+    splitKinds.contains Kind.AugAssign = false ∧ splitKinds.contains Kind.Pass = false := by decide
+
+/-- For EVERY non-empty program of the statement language and every initial globals dict:
+`evaluate` (split of the last statement, exec of the body, eval of the last expression, detour of a
+trailing assignment through `__result__`) fails exactly when plain execution of the whole text
+fails, with the same error, and otherwise leaves the same globals (modulo `__result__`) and the
+same captured output. No hypothesis on the names the program uses. -/
+theorem C19_tail_plain (body : List Stmt) (last : Stmt) (ctx : Env) :
+    Agree (evaluate (body ++ [last]) ctx) (execAll (body ++ [last]) ⟨ctx, []⟩) := by
+  obtain ⟨hA, hE, hG, hP⟩ := C19_split_assign_expr
+  rw [execAll_append]
+  unfold evaluate evaluateWith
+  simp only [List.getLast?_append, List.getLast?_singleton, Option.or_some, Option.some_or,
+    List.dropLast_concat]
+  cases last with
+  | assign ts e =>
+    simp only [Stmt.kind, hA, if_true, Stmt.value?]
+    cases hb : execAll body ⟨ctx, []⟩ with
+    | error err => simp [Agree]
+    | ok s1 =>
+      simp only [execAll_single, exec]
+      cases he : evalE e s1 with
+      | error err => simp [Agree]
+      | ok r =>
+        obtain ⟨v, s2⟩ := r
+        simp only [evalE, lookup_setVar_self, Agree]
+        exact ⟨erase_assignAll_congr ts _ _ resultKey v (erase_setVar_self _ _ _), by trivial⟩
+  | expr e =>
+    simp only [Stmt.kind, hE, if_true, Stmt.value?]
+    cases hb : execAll body ⟨ctx, []⟩ with
+    | error err => simp [Agree]
+    | ok s1 =>
+      simp only [execAll_single, exec]
+      cases he : evalE e s1 with
+      | error err => simp [Agree]
+      | ok r =>
+        obtain ⟨v, s2⟩ := r
+        simp only [Agree]
+        exact ⟨erase_setVar_self _ _ _, by trivial⟩
+  | aug x e =>
+    simp only [Stmt.kind, hG, Bool.false_eq_true, if_false]
+    rw [execAll_append]
+    cases hb : execAll body ⟨ctx, []⟩ with
+    | error err => simp [Agree]
+    | ok s1 =>
+      simp only []
+      cases hl : execAll [Stmt.aug x e] s1 with
+      | error err => simp [Agree]
+      | ok s2 => simp only [Agree]; exact ⟨erase_setVar_self _ _ _, by trivial⟩
+  | pass =>
+    simp only [Stmt.kind, hP, Bool.false_eq_true, if_false]
+    rw [execAll_append]
+    cases hb : execAll body ⟨ctx, []⟩ with
+    | error err => simp [Agree]
+    | ok s1 =>
+      simp only []
+      cases hl : execAll [Stmt.pass] s1 with
+      | error err => simp [Agree]
+      | ok s2 => simp only [Agree]; exact ⟨erase_setVar_self _ _ _, by trivial⟩
+
+/-- The value returned for a program that ends in an expression statement or an assignment is the
+value its last expression evaluates to in the state the body leaves behind (also when the targets
+of a trailing assignment include `__result__` itself). -/
+theorem C19_tail_result (body : List Stmt) (last : Stmt) (e : Ex) (ctx : Env) (r : Res)
+    (hk : last.kind = .Expr ∨ last.kind = .Assign) (hv : last.value? = some e)
+    (h : evaluate (body ++ [last]) ctx = .ok (some r)) :
+    ∃ s1 s2, execAll body ⟨ctx, []⟩ = .ok s1 ∧ evalE e s1 = .ok (r.result, s2) := by
+  obtain ⟨hA, hE, _, _⟩ := C19_split_assign_expr
+  unfold evaluate evaluateWith at h
+  simp only [List.getLast?_append, List.getLast?_singleton, Option.or_some, Option.some_or,
+    List.dropLast_concat] at h
+  cases last with
+  | assign ts e' =>
+    simp only [Stmt.value?, Option.some.injEq] at hv
+    subst hv
+    simp only [Stmt.kind, hA, if_true, Stmt.value?] at h
+    cases hb : execAll body ⟨ctx, []⟩ with
+    | error err => rw [hb] at h; simp at h
+    | ok s1 =>
+      rw [hb] at h
+      simp only [] at h
+      cases he : evalE e' s1 with
+      | error err => rw [he] at h; simp at h
+      | ok p =>
+        obtain ⟨v, s2⟩ := p
+        rw [he] at h
+        simp only [exec, evalE, lookup_setVar_self] at h
+        have hl := lookup_assignAll_same ts (setVar s2.env resultKey v) resultKey v (lookup_setVar_self _ _ _)
+        simp only [hl, Option.getD_some, Except.ok.injEq, Option.some.injEq] at h
+        subst h
+        exact ⟨s1, s2, rfl, he⟩
+  | expr e' =>
+    simp only [Stmt.value?, Option.some.injEq] at hv
+    subst hv
+    simp only [Stmt.kind, hE, if_true, Stmt.value?] at h
+    cases hb : execAll body ⟨ctx, []⟩ with
+    | error err => rw [hb] at h; simp at h
+    | ok s1 =>
+      rw [hb] at h
+      simp only [] at h
+      cases he : evalE e' s1 with
+      | error err => rw [he] at h; simp at h
+      | ok p =>
+        obtain ⟨v, s2⟩ := p
+        rw [he] at h
+        simp only [lookup_setVar_self, Option.getD_some, Except.ok.injEq, Option.some.injEq] at h
+        subst h
+        exact ⟨s1, s2, rfl, he⟩
+  | aug x e' => simp [Stmt.kind] at hk
+  | pass => simp [Stmt.kind] at hk
+
+/-- The `outputs_intermediate` dictionary is the same filter applied to the same globals, so it
+agrees with the one computed from plain execution (modulo `__result__`). -/
+theorem C19_tail_outputs (ctx e1 e2 : Env) (h : erase resultKey e1 = erase resultKey e2) :
+    erase resultKey (outputs ctx e1) = erase resultKey (outputs ctx e2) := by
+  rw [outputs_erase, outputs_erase, h]
+
+/-- An empty program yields nothing and executes nothing. -/
+theorem C19_tail_empty (ctx : Env) : evaluate [] ctx = .ok none := rfl
+
+/-! Non-vacuity / regression instances (kernel-evaluated). -/
+example : evaluate [.assign ["a"] (.lit 1), .assign ["b", "__result__"] (.add (.var "a") (.lit 2))] [("g", .int 7)]
+    = .ok (some ⟨.int 3, [("g", .int 7), ("a", .int 1), ("__result__", .int 3), ("b", .int 3)], []⟩) := by rfl
+example : evaluate [.expr (.print (.lit 4)), .aug "g" (.lit 1)] [("g", .int 7)]
+    = .ok (some ⟨.int 8, [("g", .int 8), ("__result__", .int 8)], [.int 4]⟩) := by rfl
+example : evaluate [.expr (.print (.lit 4)), .expr (.var "zz")] [] = .error .nameError := by rfl
+
+end Tail
 
 end Pg.C19
